@@ -221,7 +221,21 @@ def run(ctx):
                         contains = any(first is x for x in au.walk_stmts(s2.body))
                         if (is_in and skips and not contains) or (not is_in and contains):
                             guard = s2
-        if guard is not None or dedup and "node" not in cols:
+        # the visited set has to survive the whole loop nest: created before the outermost loop that encloses the update
+        scoped = None
+        if guard is not None:
+            sname = next(c.comparators[0].id for c in au.walk_local(guard.test) if isinstance(c, ast.Compare) and isinstance(c.comparators[0], ast.Name)
+                         and c.comparators[0].id in grown)
+            inits = [s2 for s2 in au.walk_stmts(mp.body) if isinstance(s2, ast.Assign) and any(isinstance(t0, ast.Name) and t0.id == sname for t0 in s2.targets)]
+            inside = [s2 for s2 in inits if any(isinstance(a, ast.For) and any(a is l for l in loops) for a in ctx.p.ancestors(s2))]
+            if inside:
+                scoped = (sname, inside[0])
+        if scoped is not None:
+            ctx.ob("C13.g", mp, "each group of variables is joined once", False,
+                   "the set `%s` of variables already joined is (re)created inside the loop nest (line %s): it does not survive the loop over "
+                   "the nodes, so a variable with one mapping row per node (Transport) is joined once per node again - its cost becomes "
+                   "2 S - c0 and its restriction columns double" % (scoped[0], scoped[1].lineno), node=scoped[1])
+        elif guard is not None or dedup and "node" not in cols:
             ctx.ob("C13.g", mp, "each group of variables is joined once", True, node=first,
                    ok_detail=("visited set: %s" % au.short(guard.test, 50)) if guard is not None else "labels de-duplicated, rows not grouped by node")
         elif masks and "node" in cols:
